@@ -285,6 +285,8 @@ class RawVoltageBackend(object):
         header_dict['TBIN'] = self.tbin
         if self.is_antenna_array:
             header_dict['NANTS'] = self.num_antennas
+        elif 'NANTS' in header_dict:
+            header_dict['NANTS'] = 1
         header_dict['OBSNCHAN'] = self.num_chans * self.num_antennas
         header_dict['OBSBW'] = self.chan_bw * self.num_chans * 1e-6
 
